@@ -14,7 +14,7 @@ RULE = ('decision level: case = (region set: up to 12 regions, size 2^5..2^32 in
         'subregion boundary -1/0/+1, or random) x read/write x privileged/unprivileged x SCTLR.M x SCTLR.BR; the real '
         'translate_address() outcome (physical address or abort kind, DFSR, DFAR) is compared with the reference. '
         'instruction level: load/store rows stepped in lock-step with the MPU programmed at random (code always '
-        'fetchable), addresses drawn around the programmed boundaries, SCTLR.A set in 40% of the cases and SCTLR.U drawn on ARMv6. non-trivial = decision taken by a region with '
+        'fetchable), addresses drawn around the programmed boundaries, SCTLR.A set in 40% of the cases and SCTLR.U drawn on ARMv6, the VMSA-only registers the register file still holds (FCSEIDR, DACR, TTBCR) at arbitrary values. non-trivial = decision taken by a region with '
         'restricted AP, a subregion, the background rule, or an abort; distinct = (deciding rule, AP, privilege, '
         'direction) / (row, abort kind)')
 ASSUMPTIONS = ['vf/ref/mem.py translate_p / check_permission transcribe B5.3 of the ARM ARM (highest-numbered matching '
@@ -100,6 +100,15 @@ def run_shard(spec):
             # to "transfer no data, write back nothing, take a Data Abort whose DFSR/DFAR identify the fault"
             ctx.cpu.registers.sctlr.a = 1
         desc['sctlr_ua'] = (ctx.cpu.registers.sctlr.u, ctx.cpu.registers.sctlr.a)
+        if rng.random() < 0.3:
+            # registers of the OTHER memory system architecture that the emulator's register file still holds (an MCR reaches
+            # them): PMSA has no Fast Context Switch Extension, no domains, no translation tables - their values are nothing
+            # the protection unit may depend on
+            r_ = ctx.cpu.registers
+            r_.fcseidr.value = rng.choice([1, 3, 0x40, 0x7F]) << 25
+            r_.dacr.value = rng.getrandbits(32)
+            r_.ttbcr.value = rng.choice([0, 1, 7, 0x20])
+            desc['vmsa_register_noise'] = dict(fcseidr='%#x' % r_.fcseidr.value, dacr='%#x' % r_.dacr.value, ttbcr='%#x' % r_.ttbcr.value)
         desc['regions'] = [(hex(b), rs, hex(sd), ap, en) for b, rs, sd, ap, en in regions if en]
         # point some registers at the programmed boundaries
         r = ctx.cpu.registers
@@ -141,6 +150,8 @@ def decision(spec):
             scen.prepare(ctx, rng, 'arm', 0xE1A00000, mode=mode)
             cpu = ctx.cpu
             program(cpu, regions, m=m, br=br)
+            if a % 3 == 0:
+                cpu.registers.fcseidr.value = rng.choice([1, 3, 0x40, 0x7F]) << 25      # (no FCSE in PMSA: must not matter)
             M.activate(cpu)
             pre = observe.snapshot(cpu, mem=False)
             ref = RefCPU(dict(pre), ctx.cfg)
